@@ -186,11 +186,11 @@ class FunctorPool:
             self.data = data
             self.chunk_size = chunk_size
             self.pool = pool
-
-        def run(self) -> None:
+            # the consumer tests these flags right after start(), which may be before run() gets its first time slice
             self.pool._sending_work = True
             self.pool._data_cnt = 0
 
+        def run(self) -> None:
             def chunking(d):
                 ch = []
                 for x in d:
